@@ -58,7 +58,9 @@ CONFIG = {
     "rule": "real plugin sessions, each in its own host process with private temp directories on both sides (host TMPDIR, plugin TMPDIR / the runner's "
             "socket directory): configurations protocol {netrpc, grpc} x multiplexing x AutoMTLS x launch {Cmd, RunnerFunc around a real exec.Cmd}; "
             "histories: the empty one (Kill right after Start) and d,c,e,p,c,d per configuration, plus seeded random histories of 0-6 ops from "
-            "{d=Dispense+Double, c=Callback brokered in both directions, e=Emit to stdout+stderr, p=Ping}; after Kill has returned and the process is gone "
+            "{d=Dispense+Double, c=Callback brokered in both directions, e=Emit to stdout+stderr, p=Ping}; sessions marked pre=close (fixed: every RunnerFunc "
+            "configuration with the empty history and d,c, Cmd launches with d,c,e; plus a quarter of the random ones): before Kill the host calls ClientProtocol.Close() itself "
+            "and waits for Client.Exited(), so that Kill finds a recorded runner whose process has already exited; after Kill has returned and the process is gone "
             "both directories are listed (at Kill return and 3 s later) and the host's goroutines with go-plugin frames are dumped 3 s later "
             "(a broker timeoutWait, bounded by its 5 s timer, is given until 6 s); distinct = distinct case lines; non-trivial = something was left behind",
     "assumptions": [
@@ -85,7 +87,7 @@ CONFIG = {
                   "through tls / GRPCServerMuxer wrappers; Kill's deferred Wait + RemoveAll) is part of the model with 17 edges extracted from the source. "
                   "For ALL histories of dispense / brokered callback / stdio / ping of any length and all configurations (protocol x multiplexing x TLS x launch): "
                   "no file entry remains (ledger_empty_files), every host goroutine's release condition is implied by Kill + plugin exit (ledger_empty_goroutines), "
-                  "the plugin's graceful exit itself follows (plugin_exits_gracefully); ledger_empty_files_partial is the form that holds while only the broker-listener ordering is missing (the only possible leftover is then a plugin-side brokered socket that lost the race, gRPC without multiplexing, Cmd launch); witness theorems show each edge is needed, among them the two defects of the "
+                  "the plugin's graceful exit itself follows (plugin_exits_gracefully); the same for every state of the plugin at the moment Kill is called - still running, or already shut down by the host through ClientProtocol.Close() and exited - given the fact that Kill's deferred clean-up (Wait, RemoveAll of the runner's socket directory) is registered whenever a runner was recorded (ledger_empty_files_any_state, no_socket_dir_after_kill, ledger_empty_goroutines_any_state; witness exited_before_kill_socket_dir_remains: an early return above the defer leaves the directory after every history); ledger_empty_files_partial is the form that holds while only the broker-listener ordering is missing (the only possible leftover is then a plugin-side brokered socket that lost the race, gRPC without multiplexing, Cmd launch); witness theorems show each edge is needed, among them the two defects of the "
                   "unchanged tree: GRPCServerMuxer.Close never closes the wrapped listener (main socket of a multiplexed gRPC plugin stays, every history) and "
                   "GRPCServer.Stop / GRPCBroker.Close leave the plugin-side brokered sockets to goroutines that race the process exit. "
                   "Tied to the code by re-extracting the edges and the `go` site list on every run and by ~40 real sessions per run (own host process each, private "
